@@ -717,6 +717,15 @@ func (p *nriPlugin) getPendingUpdates(skip *api.Container) []*api.ContainerUpdat
 			continue
 		}
 
+		if state := c.GetState(); state == cache.ContainerStateExited || state == cache.ContainerStateStale {
+			// a container that has exited takes no more updates, drop what is queued for it
+			c.GetPendingUpdate()
+			for _, ctrl := range c.GetPending() {
+				c.ClearPending(ctrl)
+			}
+			continue
+		}
+
 		if u := c.GetPendingUpdate(); u != nil {
 			p.setDefaultClasses(c, u)
 			updates = append(updates, u)
